@@ -18,7 +18,7 @@ import (
 
 func TestC09Rapid(t *testing.T) {
 	rec := evid.For("C09")
-	runRapid(t, 700, 7000, func(rt *rapid.T) {
+	runRapid(t, 1000, 12000, func(rt *rapid.T) {
 		c := rec.Begin()
 		tc := newTwoChain(tcOpts{nExecutors: 1, otherFirst: rapid.IntRange(0, 1).Draw(rt, "otherFirst")})
 		l2 := tc.l2
